@@ -77,8 +77,12 @@ Fixpoint rename (syn : list (string * string)) (e : expr) : expr :=
 Definition same_modulo (syn : list (string * string)) (e1 e2 : expr) : bool :=
   expr_eqb (rename syn (strip e1)) (rename syn (strip e2)).
 
-(* SQLite / Spark names -> the DuckDB name of the same function *)
-Definition synonyms : list (string * string) :=
+(* SQLite / Spark names -> the DuckDB name of the same function.
+   synonyms_builtin: both names have an executable meaning in Model/Levels.v `builtin`, and the two meanings are proved
+   equal (C06_synonyms_verified).  synonyms_x_only: no executable meaning in Coq (the epoch of a timestamp is abstract);
+   that the two engine functions agree is tied by the correspondence run only (thorough tier, DuckDB vs Spark date levels). *)
+Definition synonyms_builtin : list (string * string) :=
   [ ("jaro_sim", "jaro_similarity"); ("jaro_winkler", "jaro_winkler_similarity");
-    ("size", "array_length"); ("array_intersect", "list_intersect");
-    ("unix_timestamp", "epoch") ].
+    ("size", "array_length"); ("array_intersect", "list_intersect") ].
+Definition synonyms_x_only : list (string * string) := [ ("unix_timestamp", "epoch") ].
+Definition synonyms : list (string * string) := synonyms_builtin ++ synonyms_x_only.
